@@ -25,7 +25,7 @@ class C19(Prop):
                    "positional re-keying of outer pins on reference change)",
                    "announcements carry no position, so order inside containers is not part of the mirror",
                    "after an event vetoed by a simulator-owned listener all shadows are re-synchronised"]
-    runs = {"quick": 5000, "thorough": 150000}
+    runs = {"quick": 3500, "thorough": 120000}
 
     def configure(self, rng, tier):
         cfg = swarm_config(rng, base={"listener": 0.8, "clone": 0.0, "reference": 3.0, "remove": 3.5,
